@@ -4,7 +4,7 @@ use crate::util::*;
 
 fn gen_matrix(r: &mut Rng) -> Vec<f64> {
     use scad_tree::Mt4;
-    let kind = r.below(8);
+    let kind = r.below(10);
     let flat = |m: Mt4| -> Vec<f64> {
         let mut v = Vec::new();
         for c in [m.x, m.y, m.z, m.w] { v.extend([c.x, c.y, c.z, c.w]); }
@@ -24,6 +24,11 @@ fn gen_matrix(r: &mut Rng) -> Vec<f64> {
         5 => { let s = r.distinct(3); let a = r.angle();
                flat(Mt4::rot_x_matrix(a) * Mt4::scale_matrix(s[0], s[1], s[2])) }
         6 => vec![0.0; 16],                                      // rank 0
+        8 | 9 => {                                               // invertible with a tiny or huge determinant (unit conversions)
+            let s = *r.pick(&[1e-6, 1e-5, 1e-4, 1e-3, 1e3, 1e6, 25.4e-6]);
+            let (a, b) = (r.angle(), r.angle()); let t = r.distinct(3);
+            let k = if kind == 8 { (s, s, s) } else { (s, s * 0.1, s * 10.0) };
+            flat(Mt4::translate_matrix(t[0], t[1], t[2]) * Mt4::rot_z_matrix(a) * Mt4::rot_x_matrix(b) * Mt4::scale_matrix(k.0, k.1, k.2)) }
         _ => { let mut v = vec![0.0; 16]; let d = r.distinct(4); v[0] = d[0]; v[5] = d[1]; v[10] = d[2]; v[15] = d[3]; v }
     }
 }
